@@ -83,6 +83,23 @@ def run(ctx):
                     lines.append(decgen.case(m, data, chunks, decl, reads, mon, junk))
                     meta.append((gid, m, decl, mon, nreads, kind))
                     dist[m + ":" + kind] += 1
+            # declared lengths of 4 GiB and more (the API takes a size_t): a caller that asks for exactly T bytes gets the
+            # same T bytes whatever length >= T was declared -- the stream "stops exactly there", not at the declared
+            # length reduced modulo a narrower integer type.  One group per stream: the reference (declared = T) and
+            # the large declarations, read in one piece and in several.
+            if kind == "valid" and tlen:
+                gid += 1
+                bigs = [2 ** 32, 2 ** 32 + 1, 2 ** 32 + max(1, tlen // 2), 2 ** 32 + tlen, 2 ** 33 + 7, 2 ** 40]
+                if ctx.quick:
+                    bigs = rnd.sample(bigs[:3], 1) + rnd.sample(bigs[3:], 1)
+                chunks = decgen.chunkings(rnd) if m not in ("-lz5-",) else "-"
+                for decl in [tlen] + bigs:
+                    for reads in ([str(tlen)] if decl == tlen else [str(tlen), "%d,0,%d" % (tlen // 2, tlen - tlen // 2)]):
+                        nreads = len(reads.split(","))
+                        mon = rnd.choice([-1, -1, 0, nreads])
+                        lines.append(decgen.case(m, data, chunks, decl, reads, mon, 170))
+                        meta.append((gid, m, decl, mon, nreads, "bigdecl"))
+                        dist["declared>=4GiB"] += 1
         co = common.run_lines_parallel([cexe], lines)
         # the same cases on an optimised, unsanitised gcc build (what users run): uninitialised reads show
         # there as schedule-dependent output rather than as a sanitizer report
@@ -99,8 +116,11 @@ def run(ctx):
             if len({(h, l) for h, l, _, _ in items}) > 1:
                 a = items[0]
                 b = [x for x in items if (x[0], x[1]) != (a[0], a[1])][0]
-                viol.append({"property": PID, "kind": "split-variance", "build": "gcc -O2, no sanitizer, callback buffer not pre-filled",
-                             "what": "different read splits returned different bytes", "case": a[2][:4000], "case2": b[2][:4000],
+                big = int(a[2].split()[4]) >= 2 ** 32 or int(b[2].split()[4]) >= 2 ** 32
+                viol.append({"property": PID, "kind": "declared-length-variance" if big else "split-variance",
+                             "build": "gcc -O2, no sanitizer, callback buffer not pre-filled",
+                             "what": "the same number of bytes asked of the same stream gives different bytes when a length of 4 GiB or more "
+                                     "is declared" if big else "different read splits returned different bytes", "case": a[2][:4000], "case2": b[2][:4000],
                              "observed": a[3][:200], "observed2": b[3][:200], "sig": "split-plain:" + a[2].split()[1]})
         midx = [i for i, mt in enumerate(meta) if mt[1] in modelled]
         mo_part = common.run_lines_parallel([ctx.model], [lines[i] for i in midx])
@@ -151,13 +171,20 @@ def run(ctx):
             hs = {(h, l) for h, l, _, _ in items}
             if len(hs) > 1:
                 a, b = items[0], [x for x in items if (x[0], x[1]) != (items[0][0], items[0][1])][0]
+                if int(b[2].split()[4]) >= 2 ** 32 or int(a[2].split()[4]) >= 2 ** 32:
+                    viol.append({"property": PID, "kind": "declared-length-variance", "what": "the same number of bytes asked of the same "
+                                 "stream gives different bytes when a length of 4 GiB or more is declared", "case": a[2][:4000], "case2": b[2][:4000],
+                                 "observed": a[3][:200], "observed2": b[3][:200], "sig": "bigdecl:" + a[2].split()[1]})
+                    continue
                 viol.append({"property": PID, "kind": "split-variance", "what": "different read splits returned different bytes",
                              "case": a[2][:4000], "case2": b[2][:4000], "observed": a[3][:200], "observed2": b[3][:200],
                              "sig": "split:" + a[2].split()[1]})
         cov = {"evaluations": len(lines), "distinct_nontrivial": nontriv,
                "rule": "per method: seed members (valid), truncated, mutated, random streams x declared lengths "
                        "{0,1,true-1,true,true+1,huge} x read schedules (single big read, 1-byte reads, zeros interleaved, random) "
-                       "x monitor attach points x callback chunkings; oracles on the C alone: split invariance within a group, "
+                       "x monitor attach points x callback chunkings; valid streams also with declared lengths of 4 GiB and more "
+                       "(2^32, 2^32+1, 2^32+T/2, 2^32+T, 2^33+7, 2^40) read for exactly T bytes in one and in several pieces: same bytes as "
+                       "with T declared; oracles on the C alone: split invariance within a group, "
                        "length, CRC vs independent CRC, <= declared, <= asked, progress sequence; correspondence on the modelled "
                        "methods (%s). non-trivial = distinct case with output and more than one read" % ",".join(sorted(modelled)),
                "distribution": dict(dist), "methods_modelled": sorted(modelled),
